@@ -6,6 +6,8 @@
 set -u
 G="$1"
 cd /verif || exit 2
+git checkout -q -- evidence lean/SpoxModel/Generated 2>/dev/null   # rewritten by every run; never block a merge
+if [ -n "$(git status --porcelain)" ]; then git add -A; git commit -qm "wip before merging dev-$G"; fi
 git merge --no-edit -X theirs "dev-$G" 2>&1 | tail -3
 # conflicts in generated files: take ours, regenerate below
 for f in MANIFEST.json known_findings.json DESIGN.md; do
